@@ -2,7 +2,7 @@
 # usage: tools/try_patch.sh <patch.diff> <tier> <ID> [<ID> ...]
 # applies the patch to /repo, runs the listed checks, prints one line per check, reverts /repo.
 set -u
-P="$1"; TIER="$2"; shift 2
+P="$(realpath "$1")"; TIER="$2"; shift 2
 cd /verif
 if ! git -C /repo diff --quiet; then echo "REFUSING: /repo has uncommitted changes"; exit 2; fi
 git -C /repo apply "$P" || { echo "patch does not apply"; exit 2; }
